@@ -553,6 +553,10 @@ func (x *Exec) localByName(e *Env, name string) (val, bool) {
 			if best != nil {
 				return val{x.vals[best], best.Type(), vc.sortOf(best.Type())}, true
 			}
+			// no definition reaches this point (e.g. a postcondition evaluated at an early return): the local has no
+			// value here; an arbitrary one makes the clause mean "for whatever value" on this path
+			t := cands[0].Type()
+			return val{vc.fresh("undef_"+sanitize(name), vc.sortOf(t)), t, vc.sortOf(t)}, true
 		}
 		e.fail("local %q is ambiguous at this point (%d SSA values)", name, len(cands))
 	}
@@ -1085,6 +1089,12 @@ func (e *Env) callExpr(c *CExpr) val {
 	case "upd":
 		argn(3)
 		s, k, v := e.eval(c.Args[0]), e.eval(c.Args[1]), e.eval(c.Args[2])
+		if v.srt == "nil" {
+			v.t = vc.zeroOfSort(arrayRange(s.srt))
+		}
+		if k.srt == "nil" {
+			k.t = "0"
+		}
 		return val{store(s.t, k.t, v.t), s.typ, s.srt}
 	case "wrap32u":
 		argn(1)
